@@ -143,7 +143,7 @@ def proof_step(res, props_file, thorough=False):
 # ------------------------------------------------------------------------------------------------
 # implementation build
 
-def go_build(res, pkg, out, tags="verif", cwd=None, timeout=1200):
+def go_build(res, pkg, out, tags="verif", cwd=None, timeout=1200, race=False):
     cwd = cwd or os.path.join(VERIF, "harness")
     os.makedirs(BIN, exist_ok=True)
     sums = set()
@@ -152,7 +152,7 @@ def go_build(res, pkg, out, tags="verif", cwd=None, timeout=1200):
             sums.update(l for l in open(p).read().splitlines() if l.strip())
     with open(os.path.join(cwd, "go.sum"), "w") as f:
         f.write("\n".join(sorted(sums)) + "\n")
-    rc, outp = sh(["go", "build", "-tags", tags, "-o", os.path.join(BIN, out), pkg], cwd=cwd, env=GOENV, timeout=timeout)
+    rc, outp = sh(["go", "build"] + (["-race"] if race else []) + ["-tags", tags, "-o", os.path.join(BIN, out), pkg], cwd=cwd, env=GOENV, timeout=timeout)
     if rc != 0:
         res.broken.append({"what": "harness/%s does not build against /repo's working tree" % pkg,
                            "detail": "\n".join(outp.strip().splitlines()[-25:])})
